@@ -185,24 +185,16 @@ def run_case(spec):
     if spec["kind"] == "closing":
         # reference run over the whole span: find a step (not the first) whose first attempt h_a was rejected and that was accepted
         # at h_b < h_a; a call targeting t_k + (h_a+h_b)/2 meets exactly that state with a proposed step > remaining > acceptable
-        ref = sysrun.make_system(prob.rhs, y0.copy(), t0, tf, spec["dt"], cls, rtol=spec["rtol"], atol=spec["atol"])
-        if hasattr(prob, "jac") and not info["explicit"]:
-            ref.equ_rhs.hook_jacobian_call(prob.jac)
-        rlog = StepLog(ref.integrator)
-        sysrun.call_integrate(ref, max_steps=60000, callback=lambda s_: rlog.attempts.append({"boundary": 1}))
-        groups, cur = [], []
-        for a in rlog.attempts:
-            if "boundary" in a:
-                groups.append(cur)
-                cur = []
-            else:
-                cur.append(a)
-        cands = [(k, g) for k, g in enumerate(groups) if k >= 2 and len(g) >= 2 and k < len(groups) - 1 and abs(g[-1]["h"]) < abs(g[0]["h"])]
-        if not cands:
+        def _mk():
+            r_ = sysrun.make_system(prob.rhs, y0.copy(), t0, tf, spec["dt"], cls, rtol=spec["rtol"], atol=spec["atol"])
+            if hasattr(prob, "jac") and not info["explicit"]:
+                r_.equ_rhs.hook_jacobian_call(prob.jac)
+            return r_
+        tgt = sysrun.closing_rejection_target(_mk)
+        if tgt is None:
             rec.skipped = "closing: reference run has no rejected step to target"
             return rec.out()
-        k, g = cands[len(cands) // 2]
-        tf = float(g[0]["t"] + 0.5 * (g[0]["h"] + g[-1]["h"]))
+        tf = tgt
         feats["problem"] = "quiet_bump_closing"
     system = sysrun.make_system(prob.rhs, y0, t0, tf, spec["dt"], cls, rtol=spec["rtol"], atol=spec["atol"])
     if hasattr(prob, "jac") and not info["explicit"]:
